@@ -277,4 +277,37 @@ Section XSec.
     intros E0 E1 E2 E3 E4 E5 E6 Ht. rewrite xq_t_get by exact E0. apply dict_get_denote_none.
     rewrite xq_get_other by assumption. rewrite Ht. apply prevl_get. exact E6.
   Qed.
+
+  (* everything the multi-section development needs, in one statement *)
+  Definition xq_facts : Prop :=
+    top_ok xq_top /\
+    (forall pre post, xref_and_trailer_x dec can (pre ++ top_text xq_top ++ post) (blen pre) = SOk (xq_x0, xq_t)) /\
+    dict_get xq_t K_Prev = match prevl with [(_, v)] => Some v | _ => None end /\
+    (forall k, bytes_eqb k Xref.K_Index || bytes_eqb k Xref.K_W || bytes_eqb k Obj.K_Length = false ->
+               bytes_eqb (bs "Type") k = false -> bytes_eqb RefWriter.K_Size k = false -> bytes_eqb (bs "W") k = false ->
+               bytes_eqb (bs "Index") k = false -> bytes_eqb RefWriter.K_Length k = false -> bytes_eqb K_PrevW k = false ->
+               dict_get (a_trailer a) k = None -> dict_get xq_t k = None) /\
+    dict_wf xq_t /\ NoDup (map fst xq_numb).
+  Lemma xq_all : xq_facts.
+  Proof.
+    split; [exact xq_top_ok|]. split; [exact xq_parse|]. split; [exact xq_t_prev|]. split; [exact xq_t_none|].
+    split; [exact xq_t_wf|exact xq_numb_nodup].
+  Qed.
 End XSec.
+
+(* the hypotheses of the section, bundled *)
+Definition xq_hyps (a : adoc) (x : xsstyle) (entry : N -> sentry) (secs : list (N * N)) (size : N) (prevl : list (bytes * obj)) : Prop :=
+  xs_filter x = SfNone /\ secs_increasing 0 secs = true /\ (forall f c, In (f, c) secs -> 1 <= c /\ f + c <= size) /\
+  size <= u32_max /\
+  (forall k, In k (keys_of secs) -> a_of (entry k) < two32 /\ b_of (entry k) < 65536 /\ entry_in_range (entry k)) /\
+  (exists k, In k (keys_of secs) /\ 0 < a_of (entry k)) /\
+  (spell_wf (ODict (xq_d a x entry secs size prevl)) (i_obj (xs_istyle x)) /\
+   (nest (ODict (xq_d a x entry secs size prevl)) <= MAX_DEPTH)%nat) /\
+  (dict_get (a_trailer a) Xref.K_Index = None /\ dict_get (a_trailer a) K_Filter = None /\
+   dict_get (a_trailer a) K_Prev = None /\ dict_get (a_trailer a) K_Encrypt = None /\
+   dict_get (a_trailer a) K_XRefStm = None) /\
+  (prevl = [] \/ exists q, prevl = [(K_PrevW, OInt (Z.of_N q))]) /\
+  1 <= xs_id x <= u32_max.
+
+Lemma xq_all' a x entry secs size prevl dec can : xq_hyps a x entry secs size prevl -> xq_facts a x entry secs size prevl dec can.
+Proof. intros [H1 [H2 [H3 [H4 [H5 [H6 [H7 [H8 [H9 H10]]]]]]]]]. apply (xq_all a x entry secs size 0 prevl dec can); assumption. Qed.
